@@ -299,6 +299,15 @@ func (m *Model) RunNilErr(s *Sink, rule string) {
 			if isFailRet(b) {
 				hasFail = true
 			}
+			if ret, isRet := b.Instrs[len(b.Instrs)-1].(*ssa.Return); isRet && len(ret.Results) > 0 {
+				vi := verdictIndex(fn)
+				if vi < 0 {
+					vi = 0
+				}
+				if c, isC := ret.Results[vi].(*ssa.Call); isC && boolVerdict && c.Call.StaticCallee() != nil && shortPkg(fnPkgPath(c.Call.StaticCallee())) == "parser" {
+					hasFail = true // forwards a callee's verdict
+				}
+			}
 		}
 		if hasFail {
 			cands = append(cands, fn)
@@ -313,14 +322,47 @@ func (m *Model) RunNilErr(s *Sink, rule string) {
 			func(c ssa.CallInstruction) bool { return c.Common().StaticCallee() == newErr },
 			func(*ssa.Call) bool { return false }, parFns, nil)
 		ci.failPoint = func(c *ssa.Call) bool {
-			sc := c.Call.StaticCallee()
-			return sc != nil && (els[sc] != nil || good[sc])
+			return ci.allCallees(c, func(f *ssa.Function) bool { return els[f] != nil || good[f] })
 		}
 		return ci
+	}
+	// forwarded verdict: `return p.expectPeek(X)` / `return p.parseY()` — the failure is the callee's
+	forwarded := func(b *ssa.BasicBlock) *ssa.Call {
+		ret, isRet := b.Instrs[len(b.Instrs)-1].(*ssa.Return)
+		if !isRet || len(ret.Results) == 0 {
+			return nil
+		}
+		vi := verdictIndex(b.Parent())
+		if vi < 0 {
+			vi = 0
+		}
+		v := ret.Results[vi]
+		for i := 0; i < 3; i++ {
+			switch x := v.(type) {
+			case *ssa.MakeInterface:
+				v = x.X
+				continue
+			case *ssa.ChangeInterface:
+				v = x.X
+				continue
+			}
+			break
+		}
+		c, _ := v.(*ssa.Call)
+		return c
 	}
 	escapes := func(fn *ssa.Function, ci *consumerInfo) (bool, string) {
 		for _, b := range fn.Blocks {
 			if !isFailRet(b) {
+				// a forwarded bool verdict: sound if the callee's own failures record an error (or one was recorded before)
+				if fc := forwarded(b); fc != nil && isBoolT(fc.Type()) {
+					if !ci.failPoint(fc) {
+						target := b
+						if ci.pathAvoiding(fn, fn.Blocks[0], 0, func(x *ssa.BasicBlock) bool { return x == target && !ci.blockConsumes(x, 0) }, nil) {
+							return true, m.InstrPos(b.Instrs[len(b.Instrs)-1])
+						}
+					}
+				}
 				continue
 			}
 			// forwarding a good callee's failure verbatim: `return p.parseX()` is decided at the callee
